@@ -489,16 +489,16 @@ def multi_requester(ctx, phases, orders):
         for order in orders:
             for k_knows in (0, 1):
                 n = 5 if (phase // 10 + k_knows) % 2 else 4
-                ev = [(t, 0, "cam", bytes([0, t // 200 % 256, 9])) for t in range(0, 4600, 200)]
-                ev += [(t, 1, "cam", bytes([1, t // 200 % 256, 8])) for t in range(70, 4600, 200)]
+                ev = [(t, 0, "cam", bytes([0, t // 200 % 256, 9])) for t in range(0, 3800, 200)]
+                ev += [(t, 1, "cam", bytes([1, t // 200 % 256, 8])) for t in range(70, 3800, 200)]
                 join = 1500 + phase
                 first, second = (2, 3) if order == "JK" else (3, 2)
-                ev += [(t, first, "cam", bytes([first, (t - join) // 450 % 256])) for t in range(join + 310, 4600, 450)]
-                ev += [(t, second, "cam", bytes([second, (t - join) // 450 % 256])) for t in range(join + 330, 4600, 450)]
+                ev += [(t, first, "cam", bytes([first, (t - join) // 450 % 256])) for t in range(join + 310, 3800, 450)]
+                ev += [(t, second, "cam", bytes([second, (t - join) // 450 % 256])) for t in range(join + 330, 3800, 450)]
                 joins = {0: 0, 1: 0, 2: join, 3: join}
                 preload = {0: [1], 1: [0], 3: [k_knows]}
                 if n == 5:
-                    ev += [(t, 4, "cam", bytes([4, (t - join) // 450 % 256])) for t in range(join + 345, 4600, 450)]
+                    ev += [(t, 4, "cam", bytes([4, (t - join) // 450 % 256])) for t in range(join + 345, 3800, 450)]
                     joins[4] = join
                     preload[4] = [0, 1]
                 run_schedule(ctx, n, preload, joins, ev, f"multi_requester/phase{phase}/{order}/k_knows{k_knows}")
@@ -579,7 +579,7 @@ def run(ctx):
     validity_sweep(ctx, VALIDITY_SPECS if not quick else [VALIDITY_SPECS[i] for i in (0, 2, 3, 5, 7, 9)],
                    [3600 + 20, 20] if quick else [5 * 3600, 3600 + 20, 61, 20])
     # audit round
-    multi_requester(ctx, [0, 130] if quick else list(range(0, 1000, 70)), ["JK", "KJ"])
+    multi_requester(ctx, [ctx.rng.choice([0, 60, 130])] if quick else list(range(0, 1000, 70)), ["JK", "KJ"])
     two_authorities(ctx, [0, 170] if quick else list(range(0, 1200, 100)))
     pp = [BIG_PSIDS[:3], BIG_PSIDS[3:6], BIG_PSIDS[6:]]
     positions_psids_ssp(ctx, POSITIONS[:3] if quick else POSITIONS, pp)
